@@ -10,6 +10,29 @@ use std::collections::HashMap;
 use std::io::{BufRead, Write};
 use std::panic::{catch_unwind, AssertUnwindSafe};
 
+// ---------------------------------------------------------------- counting allocator (suite S7)
+struct Counting;
+static LIVE: std::sync::atomic::AtomicIsize = std::sync::atomic::AtomicIsize::new(0);
+unsafe impl std::alloc::GlobalAlloc for Counting {
+    unsafe fn alloc(&self, l: std::alloc::Layout) -> *mut u8 {
+        LIVE.fetch_add(l.size() as isize, std::sync::atomic::Ordering::Relaxed);
+        std::alloc::System.alloc(l)
+    }
+    unsafe fn dealloc(&self, p: *mut u8, l: std::alloc::Layout) {
+        LIVE.fetch_sub(l.size() as isize, std::sync::atomic::Ordering::Relaxed);
+        std::alloc::System.dealloc(p, l)
+    }
+    unsafe fn realloc(&self, p: *mut u8, l: std::alloc::Layout, n: usize) -> *mut u8 {
+        LIVE.fetch_add(n as isize - l.size() as isize, std::sync::atomic::Ordering::Relaxed);
+        std::alloc::System.realloc(p, l, n)
+    }
+}
+#[global_allocator]
+static GLOBAL: Counting = Counting;
+fn live() -> isize {
+    LIVE.load(std::sync::atomic::Ordering::Relaxed)
+}
+
 fn hex(b: &[u8]) -> String {
     if b.is_empty() {
         return "-".into();
@@ -420,6 +443,31 @@ fn cmd_census(nseeds: u64, ext: bool, buf: bool) {
     }
 }
 
+/// S7: one traced run (with Rc identities) for the model, then the same call again, measured: live heap bytes before
+/// constructing the generator and after dropping it and its output (single-threaded; warmed up by the first run)
+fn leak_case(line: &str) -> Vec<String> {
+    let mut out = trace_case(&format!("{} alias=1", line));
+    out.pop(); // END
+    let m = kv(line);
+    {
+        // warm-up of everything lazily initialised (module table, thread locals)
+        let mut g = mk_generator(&m);
+        let _ = run_src(&mut g, &m["src"]);
+    }
+    let before = live();
+    {
+        let mut g = mk_generator(&m);
+        let r = run_src(&mut g, &m["src"]);
+        drop(r);
+        g.reset();
+        drop(g);
+    }
+    let after = live();
+    out.push(format!("LIVE {} {}", before, after));
+    out.push("END".into());
+    out
+}
+
 fn cmd_lines(path: &str, f: fn(&str) -> Vec<String>) {
     let stdout = std::io::stdout();
     let mut w = std::io::BufWriter::new(stdout.lock());
@@ -453,6 +501,7 @@ fn main() {
             cmd_deep(a[2].parse().unwrap(), a[3].parse().unwrap(), a[4].parse().unwrap())
         }
         Some("census") => cmd_census(a[2].parse().unwrap(), a[3] == "1", a[4] == "1"),
+        Some("leak") => cmd_lines(&a[2], leak_case),
         Some("adapt") => cmd_lines(&a[2], adapt_case),
         Some("hist") => cmd_lines(&a[2], hist_case),
         Some("words") => cmd_words(a[2].parse().unwrap(), a[3].parse().unwrap()),
